@@ -14,8 +14,20 @@ EXPLANATION = ("static analysis: time_slice of both classes is interpreted abstr
 
 
 def run(repo: Repo, tier, rep: Report):
+    # the graph-level interpretation first: it reads the source through its presence relation and its snapshot ids, so it
+    # can follow rewrites (a sweep over the ids, a replay of the stream) that the per-pair order-type interpretation cannot;
+    # what it finds stands even if the per-pair interpretation abstains afterwards, and vice versa
+    from sa.core import AnalysisError
+    from sa.conv_graph import check_time_slice_on_graphs
+    pending = None
+    try:
+        rep.floor("graph-level slices interpreted", check_time_slice_on_graphs(repo, rep, tier), 500)
+    except AnalysisError as ex:
+        pending = ex
     cc = common.ctor(repo, tier)
     common.take_ctor(rep, cc, ("C06.",))
+    if pending is not None:
+        raise pending
     for cls in CLASSES:
         rep.ob("O.time_slice", repo.construct(CLASSES[cls], cls + ".time_slice"),
                "clipping table exact and exhaustive; window validation; class; attrs; purity")
@@ -31,8 +43,6 @@ def run(repo: Repo, tier, rep: Report):
     check_purity(repo, addp, only={"time_slice"})
     from sa.query_check import check_enumeration_dependency
     check_enumeration_dependency(repo, rep, common.enumeration_users(repo, ['time_slice']))
-    from sa.conv_graph import check_time_slice_on_graphs
-    rep.floor("graph-level slices interpreted", check_time_slice_on_graphs(repo, rep, tier), 500)
     rep.assume(*common.CTOR_ASSUMPTIONS)
     rep.assume("'slice of a slice = slice by the intersection' and 'H is well formed' follow from exact clipping plus C01-C05 on H; "
                "they are not separately checked")
